@@ -286,7 +286,12 @@ func corsSpec(withOptions bool, sec bool) string {
 	if withOptions {
 		sb.WriteString("    options: {responses: {default: {description: d}}}\n")
 	}
-	sb.WriteString("  /pets/{id}:\n    delete: {parameters: [{in: path, name: id, required: true, schema: {type: string}}, {in: header, name: If-Match, required: true, schema: {type: string}}], responses: {default: {description: d}}}\n")
+	// the second path shares a header parameter (and, with security, a scheme) with the first
+	secDel := ""
+	if sec {
+		secDel = "security: [{Bearer: []}], "
+	}
+	sb.WriteString("  /pets/{id}:\n    delete: {" + secDel + "parameters: [{in: path, name: id, required: true, schema: {type: string}}, {in: header, name: If-Match, required: true, schema: {type: string}}, {in: header, name: X-Request-Id, schema: {type: string}}], responses: {default: {description: d}}}\n")
 	sb.WriteString("  /plain:\n    get: {responses: {default: {description: d}}}\n")
 	if sec {
 		sb.WriteString("components:\n  securitySchemes:\n    " + schemeDefs["bearer"].yaml + "\n    " + schemeDefs["khead"].yaml + "\n")
